@@ -232,3 +232,70 @@ pub fn base_fp(vtype: u8) -> usize {
         _ => std::mem::size_of::<(u64, (String, Vec<u8>))>(),
     }
 }
+
+// ------------------------------------------------------------------------------------------
+// Return values of the macro-generated corpus functions (level L2)
+
+/// A value a decorated body can return: identifiable by its stamp, Ok or Err, measurable.
+pub trait RetVal: Clone + 'static {
+    fn r_build(stamp: u64, err: bool, size: usize, shape: u8) -> Self;
+    fn r_stamp(&self) -> u64;
+    fn r_is_err(&self) -> bool;
+    /// harness footprint (inline + owned heap), computed on the value it is called on
+    fn r_fp(&self) -> usize;
+}
+
+macro_rules! plain_ret {
+    ($t:ty) => {
+        impl RetVal for $t {
+            fn r_build(stamp: u64, _err: bool, size: usize, shape: u8) -> Self {
+                <$t as HVal>::make(stamp, size, shape)
+            }
+            fn r_stamp(&self) -> u64 {
+                HVal::stamp(self)
+            }
+            fn r_is_err(&self) -> bool {
+                false
+            }
+            fn r_fp(&self) -> usize {
+                HVal::fp(self)
+            }
+        }
+    };
+}
+plain_ret!(UserVal);
+plain_ret!((u64, String));
+plain_ret!((u64, Vec<u8>));
+plain_ret!((u64, Vec<String>));
+plain_ret!((u64, Option<String>));
+plain_ret!((u64, Box<String>));
+plain_ret!((u64, (String, Vec<u8>)));
+
+impl Heap for UserVal {
+    fn heap(&self) -> usize {
+        // a user type's footprint is what its estimator reports
+        self.claimed.saturating_sub(std::mem::size_of::<UserVal>())
+    }
+}
+
+impl<T: HVal + Heap, E: HVal + Heap> RetVal for Result<T, E> {
+    fn r_build(stamp: u64, err: bool, size: usize, shape: u8) -> Self {
+        if err {
+            Err(E::make(stamp, size, shape))
+        } else {
+            Ok(T::make(stamp, size, shape))
+        }
+    }
+    fn r_stamp(&self) -> u64 {
+        match self {
+            Ok(v) => HVal::stamp(v),
+            Err(e) => HVal::stamp(e),
+        }
+    }
+    fn r_is_err(&self) -> bool {
+        Result::is_err(self)
+    }
+    fn r_fp(&self) -> usize {
+        footprint(self)
+    }
+}
